@@ -164,28 +164,39 @@ def gen_unit(opname, mode='spec', tier='quick'):
     P = None
     if mode == 'spec':
         if k == 'acc':
-            if tier == 'quick' or True:
-                nb = 64
-            bounded = None  # complete for the precondition n <= 64 (= the driver's call domain, see DESIGN C02)
-            req[0] = '0 <= n && n <= %d && 0 <= offset && offset <= %d' % (nb, NMAX)
-            terms = []
-            for kk in range(nb):
-                s_k = [arr('src', j, op.ssz[j], str(kk)) for j in range(ns)]
-                terms.append('(%d < n ? %s : 0u)' % (kk, op.spec(*s_k)))
-            total = ' + '.join(terms)
-            cell = '(*(unsigned int *)ex->dest_ptrs[0])'
-            if op.dsz[0] == 2:
-                ens = '%s == ((__CPROVER_old(%s) + %s) & 0xffffu)' % (cell, cell, total)
-            else:
-                ens = '%s == (unsigned int)(__CPROVER_old(%s) + %s)' % (cell, cell, total)
-            unwind = nb + 1
+            pass
         else:
             p = post_for(op, dests, srcs)
             P = p
             if p is not None:
                 ens = '(__gk < (unsigned long)n ==> (%s))' % p
                 inv = '(__gk < (unsigned long)i ==> (%s))' % p
-    lines = ['#include "%s/%s"' % (core.REPO, EMU_FILE),
+    ghost_decl = ''
+    acc_inv = None
+    if k == 'acc':
+        # n <= 64 = the largest chunk the driver passes.  The sum is specified through a ghost prefix-sum array
+        # that satisfies the defining recurrence (unique solution, so the assumption is not vacuous).
+        nb = 64
+        req[0] = '0 <= n && n <= %d && 0 <= offset && offset <= %d' % (nb, NMAX)
+        cell = '(*(unsigned int *)ex->dest_ptrs[0])'
+        term = op.spec(*[arr('src', j, op.ssz[j], '__k') for j in range(ns)])
+        ghost_decl = 'unsigned int g_ps[%d];' % (nb + 1)
+        req.append('g_ps[0] == 0u')
+        req.append('__CPROVER_forall { int __k; (0 <= __k && __k < %d) ==> (__k < n ==> g_ps[__k + 1] == g_ps[__k] + %s) }' % (nb, term))
+        if op.dsz[0] == 2:
+            req.append('%s <= 0xffffu' % cell)
+        if mode == 'spec':
+            if op.dsz[0] == 2:
+                ens = '%s == ((__CPROVER_old(%s) + g_ps[n]) & 0xffffu)' % (cell, cell)
+            else:
+                ens = '%s == (unsigned int)(__CPROVER_old(%s) + g_ps[n])' % (cell, cell)
+        if op.dsz[0] == 2:
+            acc_inv = '(unsigned short)var12.i == (unsigned short)g_ps[i]'
+        elif opname == 'accsadubl':
+            acc_inv = '(unsigned int)var12.i == g_ps[i] && 0 <= var12.i && var12.i <= 255 * i'
+        else:
+            acc_inv = '(unsigned int)var12.i == g_ps[i]'
+    lines = ['#include "%s/%s"' % (core.REPO, EMU_FILE), ghost_decl,
              'unsigned long __gk;', 'unsigned long nondet_ulong(void);',
              'void %s(OrcOpcodeExecutor *ex, int offset, int n)' % fn]
     for r in req:
@@ -203,8 +214,8 @@ def gen_unit(opname, mode='spec', tier='quick'):
     if unwind is None:
         base_inv = '0 <= i && i <= n'
         loops = [{'function': fn, 'file': EMU_FILE, 'anchor': 'for (i = 0; i < n; i++)',
-                  'invariants': base_inv + (' && ' + inv if inv else ''),
-                  'assigns': 'AUTO_LOCALS, ' + ', '.join(assigns),
+                  'invariants': base_inv + (' && ' + inv if inv else '') + (' && ' + acc_inv if acc_inv else ''),
+                  'assigns': 'AUTO_LOCALS' + ('' if k == 'acc' else ', ' + ', '.join(assigns)),
                   'decreases': 'n - i'}]
     backends = ['kissat', 'minisat'] if (op.hard and mode == 'spec') else ['minisat', 'kissat']
     u = core.Unit(name='%s:%s' % (mode, fn), sources=[path], entry='harness', enforce=fn, loops=loops,
